@@ -87,7 +87,7 @@ func (w *World) partners(self *G, c *vchan, wantRecv bool) []*G {
 
 func sortGs(gs []*G) {
 	for i := 1; i < len(gs); i++ {
-		for j := i; j > 0 && idLess(gs[j].ID, gs[j-1].ID); j-- {
+		for j := i; j > 0 && gLess(gs[j], gs[j-1]); j-- {
 			gs[j], gs[j-1] = gs[j-1], gs[j]
 		}
 	}
